@@ -207,7 +207,7 @@ func (e *Enc) encodeBody() {
 		v := e.freshValueNoRange("fv$"+fv.Name(), fv.Type())
 		e.vals[fv] = v
 		if s, ok := v.(Sc); ok {
-			e.assumeGlobal(not(eq(s.T, intLit(0))), "captured variable cell non-nil")
+			e.assumeGlobal(and(not(eq(s.T, intLit(0))), eq(app(SInt, "ref.tag", s.T), intLit(int64(e.tagFor(e.fnLabel+"$fv$"+fv.Name())))), eq(app(SInt, "ref.root", s.T), s.T)), "captured variable cell: a distinct non-nil variable")
 			e.ptrParams = append(e.ptrParams, s.T)
 		}
 	}
@@ -463,7 +463,7 @@ func (e *Enc) assertInvariants(li *loopInfo, from *ssa.BasicBlock, edgeCond Term
 	for j, t := range e.autoInvariants(li, sub) {
 		e.assertOb(fmt.Sprintf("loop%d/%s/auto#%d", li.ordinal, kind, j+1), t, "range index bounds", token.NoPos)
 	}
-	if e.fc != nil && !e.fc.ModAll && !e.discovery && !li.writes["*"] {
+	if e.fc != nil && !e.fc.ModAll && !e.fc.TrustFrame && !e.discovery && !li.writes["*"] {
 		for _, g := range e.frameGoals(heap, sortedKeys(li.writes)) {
 			e.assertOb(fmt.Sprintf("loop%d/%s/frame:%s", li.ordinal, kind, shortFam(g.name)), g.goal, "loop respects the function frame for "+g.name, token.NoPos)
 		}
@@ -489,7 +489,7 @@ func (e *Enc) assumeInvariants(li *loopInfo) {
 	for _, t := range e.autoInvariants(li, nil) {
 		e.assume(t, "range index bounds")
 	}
-	if e.fc != nil && !e.fc.ModAll && !e.discovery && !li.writes["*"] {
+	if e.fc != nil && !e.fc.ModAll && !e.fc.TrustFrame && !e.discovery && !li.writes["*"] {
 		for _, g := range e.frameGoals(e.cur, sortedKeys(li.writes)) {
 			e.assume(g.goal, "loop respects the function frame for "+g.name)
 		}
@@ -762,6 +762,10 @@ func (e *Enc) frameGoals(h *HeapState, names []string) []struct {
 
 func (e *Enc) frameCheck(r *ssa.Return) {
 	if e.discovery || e.fc.ModAll {
+		return
+	}
+	if e.fc.TrustFrame {
+		e.assumption("the modifies clause of " + e.fnLabel + " is trusted, not checked against its body (trustframe)")
 		return
 	}
 	if e.allWrites["*"] {
